@@ -161,6 +161,62 @@ pub struct Attack {
     pub nf: u32,
     #[serde(default)]
     pub onehop: bool,
+    /// link state schedule: sched[n] = links down when the (n+1)-th AS step is taken (empty: `down` throughout)
+    #[serde(default)]
+    pub sched: Vec<Vec<usize>>,
+}
+
+/// a cell of the segment request plan decision table (spec/ScionNet/SegPlan.tla)
+#[derive(Clone, Debug, Serialize, Deserialize)]
+pub struct PlanCell {
+    #[serde(rename = "srcCore")]
+    pub src_core: bool,
+    /// "core" | "noncore" | "any"
+    #[serde(rename = "dstKind")]
+    pub dst_kind: String,
+    pub same: bool,
+    pub single: bool,
+}
+
+/// abstract plan: each lookup is [] or [from, to] over the terms src | dst | srcW | dstW | single
+#[derive(Clone, Debug, Serialize, Deserialize)]
+pub struct PlanSym {
+    pub up: Vec<String>,
+    pub core: Vec<String>,
+    pub down: Vec<String>,
+}
+
+#[derive(Clone, Debug, Serialize, Deserialize)]
+pub struct PlanTableRow {
+    pub cell: PlanCell,
+    pub plan: PlanSym,
+    pub err: bool,
+}
+
+/// concrete plan on an instance: endpoints are (isd, as) with as = 0 for "any core AS"
+#[derive(Clone, Debug, Serialize, Deserialize)]
+pub struct PlanConc {
+    pub up: Vec<(u16, u32)>,
+    pub core: Vec<(u16, u32)>,
+    pub down: Vec<(u16, u32)>,
+}
+
+#[derive(Clone, Debug, Serialize, Deserialize)]
+pub struct Fetched {
+    pub cores: Vec<u32>,
+    pub ncs: Vec<u32>,
+}
+
+#[derive(Clone, Debug, Serialize, Deserialize)]
+pub struct PlanRow {
+    pub src: u32,
+    pub dst: (u16, u32),
+    pub cell: PlanCell,
+    pub plan: PlanConc,
+    pub err: bool,
+    pub fetched: Fetched,
+    /// the reference has a route from src to dst (to some core AS of the ISD for a wildcard destination)
+    pub reach: bool,
 }
 
 #[derive(Clone, Debug, Serialize, Deserialize)]
@@ -172,4 +228,8 @@ pub struct Inst {
     pub pairs: Vec<Pair>,
     #[serde(default)]
     pub attacks: Vec<Attack>,
+    #[serde(default)]
+    pub plans: Vec<PlanRow>,
+    #[serde(default)]
+    pub plantable: Vec<PlanTableRow>,
 }
